@@ -29,9 +29,9 @@ CHECKS = {
     ),
     "C07": dict(
         category="proof",
-        text='Lean 4 theorems (C07.*): the Bmad-X drift kernel is an exact flow (pieces compose, zero length = identity), so is the Drift element incl. the tau/delta<->z/pz conversions; straight-line motion formula; momenta untouched; TransverseDeflectingCavity at 0 V = Bmad-X drift in its frame. Tie: single particles through the real Bmad-X Drift/Quadrupole/Dipole/TDC and conversions vs CheetahModel.Bmadx at Float. Falsifier: autograd Jacobian vs linear map, piece composition for quadrupole/bend, uniform-field motion. Added: the Bmad-X quadrupole body is an exact flow in all six coordinates for either sign of k1 (hence independent of num_steps; at the regularisation eps = 0), and the Jacobian of the Bmad-X Drift about the design orbit equals the linear drift map (R12 = R34 = L, R56, unit diagonal, vanishing cross terms), obtained by verified forward-mode differentiation of the model (tactic tracks_all).',
+        text='Lean 4 theorems (C07.*): the Bmad-X drift kernel is an exact flow (pieces compose, zero length = identity), so is the Drift element incl. the tau/delta<->z/pz conversions; straight-line motion formula; momenta untouched; TransverseDeflectingCavity at 0 V = Bmad-X drift in its frame. For on-momentum particles (delta = 0, any amplitude, either sign of k1, any num_steps) the aligned Bmad-X quadrupole gives exactly the transverse coordinates of the linear transfer map, hence equal transverse Jacobians (HasDerivAt). Tie: single particles through the real Bmad-X Drift/Quadrupole/Dipole/TDC and conversions vs CheetahModel.Bmadx at Float. Falsifier: autograd Jacobian vs linear map, piece composition for quadrupole/bend, uniform-field motion. Added: the Bmad-X quadrupole body is an exact flow in all six coordinates for either sign of k1 (hence independent of num_steps; at the regularisation eps = 0), and the Jacobian of the Bmad-X Drift about the design orbit equals the linear drift map (R12 = R34 = L, R56, unit diagonal, vanishing cross terms), obtained by verified forward-mode differentiation of the model (tactic tracks_all).',
         design="§5 C07",
-        note='Trusted: Lean 4.33 kernel, Mathlib; axioms propext/Classical.choice/Quot.sound only (audited each run); instance Scalar ℝ; real-number semantics (round-off outside the theorems, covered by double-vs-double correspondence); harness generators; partial: bend-body exactness and the Jacobians of quadrupole and dipole are falsifier-only.',
+        note='Trusted: Lean 4.33 kernel, Mathlib; axioms propext/Classical.choice/Quot.sound only (audited each run); instance Scalar ℝ; real-number semantics (round-off outside the theorems, covered by double-vs-double correspondence); harness generators; partial: bend-body exactness, the chromatic Jacobian entries of the quadrupole and the Jacobian of the dipole are falsifier-only.',
         technique='Lean 4 proof (real analysis of the drift kernel, polynomial flow identity of the quadrupole step, verified forward-mode differentiation) + kernel correspondence + Jacobian/flow falsifier',
     ),
     "C09": dict(
